@@ -41,6 +41,7 @@ def generate(r, tier):
     world = gen.gen_world(r, is_async, forms=r.random() < 0.5, subclass=0.3)
     units = gen.units_of(world)
     hist_mode = r.choice(["none", "ran", "ran", "violated", "faulted"])
+    hot = r.choice(units)  # bias actors towards one shared unit so that calls overlap on it
     history = []
     if hist_mode != "none":
         for i in range(r.randint(1, 2)):
@@ -48,9 +49,14 @@ def generate(r, tier):
         if hist_mode == "violated":
             history.append(gen.gen_ticket(r, "p.v", units, dict(profile, p_falsy=1.0, p_fault=0.0, p_nested=0.0)))
         elif hist_mode == "faulted":
-            history.append(gen.gen_ticket(r, "p.f", units, dict(profile, p_fault=1.0, p_nested=0.0)))
+            meth = [u for u in units if u["obj"] is not None and u["async"]]
+            if engine == "loop" and meth and r.random() < 0.5:
+                # the parent's call on a shared object is cancelled inside the method body (e.g. by a timeout) and the parent survives
+                u = hot if (hot["obj"] is not None and hot["async"]) else r.choice(meth)
+                history.append({"id": "p.f", "fn": u["fn"], "obj": u["obj"], "body": {"pause": [1], "fault": {"kind": "cancel", "pos": r.choice(["pre", "post"])}}})
+            else:
+                history.append(gen.gen_ticket(r, "p.f", units, dict(profile, p_fault=1.0, p_nested=0.0)))
     actors = []
-    hot = r.choice(units)  # bias actors towards one shared unit so that calls overlap on it
     for i in range(r.randint(2, 4)):
         name = "a%d" % (i + 1)
         script = []
@@ -59,6 +65,14 @@ def generate(r, tier):
             script.append(gen.gen_ticket(r, "%s.%d" % (name, j), units, profile, u=u))
         actors.append({"name": name, "ctx": r.choice(CTX_MODES), "script": script})
     scn = {"property": ID, "engine": engine, "profile": profile, "hist_mode": hist_mode, "world": world, "history": history, "actors": actors}
+    if history and world.get("classes") and r.random() < 0.4:
+        pk = {}
+        for o in world.get("objects", ()):
+            invs = [u["invs"] for u in units if u["obj"] == o["name"]]
+            if invs and invs[0] and r.random() < 0.7:
+                pk[o["name"]] = {r.choice(invs[0]): False}
+        if pk:
+            scn["poke_after_history"] = pk
     if r.random() < 0.4:
         scn["parent_script"] = [gen.gen_ticket(r, "p.c%d" % j, units, profile) for j in range(r.randint(1, 2))]
     if engine == "threads":
@@ -71,6 +85,8 @@ def generate(r, tier):
 
 def all_tickets(scn):
     res = list(scn.get("history") or [])
+    if scn.get("poke_after_history"):
+        res.append({"poke": scn["poke_after_history"]})
     res += list(scn.get("parent_script") or [])
     for a in scn.get("actors") or []:
         res += list(a.get("script") or [])
@@ -99,6 +115,11 @@ def _conc_loop(scn):
         before = {a["name"]: contextvars.copy_context() for a in actors if a.get("ctx") == "copied_before"}
         for td in scn.get("history") or []:
             await do(td)
+            t_ = asyncio.current_task()
+            while t_.cancelling():
+                t_.uncancel()
+        if scn.get("poke_after_history"):
+            common.apply_poke(run, {"poke": scn["poke_after_history"]})
         tasks = []
         for a in actors:
             mode = a.get("ctx", "fresh")
@@ -132,6 +153,8 @@ def _conc_threads(scn):
             run.call(td)
 
     ctx_main.run(hist)
+    if scn.get("poke_after_history"):
+        common.apply_poke(run, {"poke": scn["poke_after_history"]})
     plan = []
     for a in actors:
         mode = a.get("ctx", "fresh")
